@@ -13,10 +13,10 @@ use std::sync::{Arc, Mutex};
 // ---------------------------------------------------------------- world description
 
 #[derive(Clone, Copy, PartialEq, Debug)]
-pub enum Kind { Map, Slot, RefFull, RefNonDisc, RefForced, MapArcMutex, MapArcRwLock, SlotArcMutex, SlotRwLock }
+pub enum Kind { Map, Slot, RefFull, RefNonDisc, RefForced, MapArcMutex, MapArcRwLock, MapMutex, MapRwLock, SlotArcMutex, SlotArcRwLock, SlotMutex, SlotRwLock, RefArcMutex, RefArcRwLock, RefMutex, RefRwLock }
 impl Kind {
     /// the name the model knows the store by (lock wrappers behave like the store they wrap)
-    pub fn name(self) -> &'static str { match self { Kind::Map | Kind::MapArcMutex | Kind::MapArcRwLock => "map", Kind::Slot | Kind::SlotArcMutex | Kind::SlotRwLock => "slot", Kind::RefFull => "ref:full", Kind::RefNonDisc => "ref:nondisc", Kind::RefForced => "ref:forced" } }
+    pub fn name(self) -> &'static str { match self { Kind::Map | Kind::MapArcMutex | Kind::MapArcRwLock | Kind::MapMutex | Kind::MapRwLock => "map", Kind::Slot | Kind::SlotArcMutex | Kind::SlotArcRwLock | Kind::SlotMutex | Kind::SlotRwLock => "slot", Kind::RefFull | Kind::RefArcMutex | Kind::RefArcRwLock | Kind::RefMutex | Kind::RefRwLock => "ref:full", Kind::RefNonDisc => "ref:nondisc", Kind::RefForced => "ref:forced" } }
 }
 #[derive(Clone, Copy, PartialEq, Debug)]
 pub enum Hm { None, UvOnly, NoUv, UvOnlyMc, NoUvMc }
@@ -75,21 +75,22 @@ impl Inner for RefStore {
     fn all(&self) -> Vec<Passkey> { self.items.clone() }
     fn put(&mut self, p: Passkey) { self.items.push(p); }
 }
-impl Inner for Arc<tokio::sync::Mutex<MemoryStore>> {
-    fn all(&self) -> Vec<Passkey> { self.try_lock().unwrap().values().cloned().collect() }
-    fn put(&mut self, p: Passkey) { self.try_lock().unwrap().insert(p.credential_id.clone().into(), p); }
+// the library's four lock wrappers, around any store of the harness
+impl<S: Inner> Inner for Arc<tokio::sync::Mutex<S>> {
+    fn all(&self) -> Vec<Passkey> { self.try_lock().unwrap().all() }
+    fn put(&mut self, p: Passkey) { self.try_lock().unwrap().put(p); }
 }
-impl Inner for Arc<tokio::sync::RwLock<MemoryStore>> {
-    fn all(&self) -> Vec<Passkey> { self.try_read().unwrap().values().cloned().collect() }
-    fn put(&mut self, p: Passkey) { self.try_write().unwrap().insert(p.credential_id.clone().into(), p); }
+impl<S: Inner> Inner for Arc<tokio::sync::RwLock<S>> {
+    fn all(&self) -> Vec<Passkey> { self.try_read().unwrap().all() }
+    fn put(&mut self, p: Passkey) { self.try_write().unwrap().put(p); }
 }
-impl Inner for Arc<tokio::sync::Mutex<Option<Passkey>>> {
-    fn all(&self) -> Vec<Passkey> { self.try_lock().unwrap().iter().cloned().collect() }
-    fn put(&mut self, p: Passkey) { *self.try_lock().unwrap() = Some(p); }
+impl<S: Inner> Inner for tokio::sync::Mutex<S> {
+    fn all(&self) -> Vec<Passkey> { self.try_lock().unwrap().all() }
+    fn put(&mut self, p: Passkey) { self.try_lock().unwrap().put(p); }
 }
-impl Inner for tokio::sync::RwLock<Option<Passkey>> {
-    fn all(&self) -> Vec<Passkey> { self.try_read().unwrap().iter().cloned().collect() }
-    fn put(&mut self, p: Passkey) { *self.try_write().unwrap() = Some(p); }
+impl<S: Inner> Inner for tokio::sync::RwLock<S> {
+    fn all(&self) -> Vec<Passkey> { self.try_read().unwrap().all() }
+    fn put(&mut self, p: Passkey) { self.try_write().unwrap().put(p); }
 }
 pub fn d_full_pub() -> DiscoverabilitySupport { DiscoverabilitySupport::Full }
 pub fn d_non_pub() -> DiscoverabilitySupport { DiscoverabilitySupport::OnlyNonDiscoverable }
@@ -159,14 +160,15 @@ fn prfi_real(p: &PrfI) -> AuthenticatorPrfInputs {
 }
 
 #[derive(Clone, Debug)]
-pub struct MakeOp { pub cdh: Vec<u8>, pub rp: String, pub user: Vec<u8>, pub algs: Vec<i64>, pub exclude: Option<Vec<Vec<u8>>>,
+pub struct MakeOp { pub cdh: Vec<u8>, pub rp: String, pub user: Vec<u8>, pub algs: Vec<i64>, pub exclude: Option<Vec<Vec<u8>>>, pub unk: Vec<usize>,
     pub ext: Option<(Option<bool>, bool, Option<PrfI>)>, pub rk: bool, pub up: bool, pub uv: bool, pub pin: bool }
 #[derive(Clone, Debug)]
-pub struct GetOp { pub rp: String, pub cdh: Vec<u8>, pub allow: Option<Vec<Vec<u8>>>, pub ext: Option<(bool, Option<PrfI>)>, pub rk: bool, pub up: bool, pub uv: bool, pub pin: bool }
+pub struct GetOp { pub rp: String, pub cdh: Vec<u8>, pub allow: Option<Vec<Vec<u8>>>, pub unk: Vec<usize>, pub ext: Option<(bool, Option<PrfI>)>, pub rk: bool, pub up: bool, pub uv: bool, pub pin: bool }
 
-fn ids_s(l: &Option<Vec<Vec<u8>>>) -> String { match l { None => "N".into(), Some(v) if v.is_empty() => "E".into(), Some(v) => v.iter().map(|i| hexf(i)).collect::<Vec<_>>().join(",") } }
-fn descs(l: &Option<Vec<Vec<u8>>>) -> Option<Vec<PublicKeyCredentialDescriptor>> {
-    l.as_ref().map(|v| v.iter().map(|i| PublicKeyCredentialDescriptor { ty: PublicKeyCredentialType::PublicKey, id: i.clone().into(), transports: None }).collect())
+/// ids of a descriptor list; an entry typed `Unknown` (index in `unk`) is prefixed with `u`
+fn ids_s(l: &Option<Vec<Vec<u8>>>, unk: &[usize]) -> String { match l { None => "N".into(), Some(v) if v.is_empty() => "E".into(), Some(v) => v.iter().enumerate().map(|(k, i)| format!("{}{}", if unk.contains(&k) { "u" } else { "" }, hexf(i))).collect::<Vec<_>>().join(",") } }
+fn descs(l: &Option<Vec<Vec<u8>>>, unk: &[usize]) -> Option<Vec<PublicKeyCredentialDescriptor>> {
+    l.as_ref().map(|v| v.iter().enumerate().map(|(k, i)| PublicKeyCredentialDescriptor { ty: if unk.contains(&k) { PublicKeyCredentialType::Unknown } else { PublicKeyCredentialType::PublicKey }, id: i.clone().into(), transports: None }).collect())
 }
 fn alg_of(a: i64) -> iana::Algorithm { use coset::iana::EnumI64; iana::Algorithm::from_i64(a).unwrap_or(iana::Algorithm::RS256) }
 pub fn faults_pub(f: &[Option<u8>]) -> String { faults_s(f) }
@@ -180,7 +182,7 @@ impl MakeOp {
         let ext = match &self.ext { None => "N".to_string(), Some((hs, mc, prf)) => format!("hs:{}/mc:{}/prf:{}", hs.map(|b| (b as u8).to_string()).unwrap_or("N".into()), *mc as u8, prfi_s(prf)) };
         format!("{} {} {} {} {} {} {}{}{}{}", hexf(&self.cdh), hexf(self.rp.as_bytes()), hexf(&self.user),
             if self.algs.is_empty() { "-".to_string() } else { self.algs.iter().map(|a| a.to_string()).collect::<Vec<_>>().join(",") },
-            ids_s(&self.exclude), ext, self.rk as u8, self.up as u8, self.uv as u8, self.pin as u8)
+            ids_s(&self.exclude, &self.unk), ext, self.rk as u8, self.up as u8, self.uv as u8, self.pin as u8)
     }
     fn real(&self, ctx_hmac_input: Option<passkey_types::ctap2::extensions::HmacGetSecretInput>) -> make_credential::Request {
         make_credential::Request {
@@ -188,7 +190,7 @@ impl MakeOp {
             rp: make_credential::PublicKeyCredentialRpEntity { id: self.rp.clone(), name: Some("rp".into()) },
             user: webauthn::PublicKeyCredentialUserEntity { id: self.user.clone().into(), display_name: "d".into(), name: "n".into() },
             pub_key_cred_params: self.algs.iter().map(|a| PublicKeyCredentialParameters { ty: PublicKeyCredentialType::PublicKey, alg: alg_of(*a) }).collect(),
-            exclude_list: descs(&self.exclude),
+            exclude_list: descs(&self.exclude, &self.unk),
             extensions: self.ext.as_ref().map(|(hs, mc, prf)| make_credential::ExtensionInputs { hmac_secret: *hs, hmac_secret_mc: if *mc { ctx_hmac_input.clone() } else { None }, prf: prf.as_ref().map(prfi_real) }),
             options: make_credential::Options { rk: self.rk, up: self.up, uv: self.uv },
             pin_auth: if self.pin { Some(vec![1u8; 16].into()) } else { None }, pin_protocol: None,
@@ -198,10 +200,10 @@ impl MakeOp {
 impl GetOp {
     pub fn enc(&self) -> String {
         let ext = match &self.ext { None => "N".to_string(), Some((hs, prf)) => format!("hs:{}/prf:{}", *hs as u8, prfi_s(prf)) };
-        format!("{} {} {} {} {}{}{}{}", hexf(self.rp.as_bytes()), hexf(&self.cdh), ids_s(&self.allow), ext, self.rk as u8, self.up as u8, self.uv as u8, self.pin as u8)
+        format!("{} {} {} {} {}{}{}{}", hexf(self.rp.as_bytes()), hexf(&self.cdh), ids_s(&self.allow, &self.unk), ext, self.rk as u8, self.up as u8, self.uv as u8, self.pin as u8)
     }
     fn real(&self, hi: Option<passkey_types::ctap2::extensions::HmacGetSecretInput>) -> get_assertion::Request {
-        get_assertion::Request { rp_id: self.rp.clone(), client_data_hash: self.cdh.clone().into(), allow_list: descs(&self.allow),
+        get_assertion::Request { rp_id: self.rp.clone(), client_data_hash: self.cdh.clone().into(), allow_list: descs(&self.allow, &self.unk),
             extensions: self.ext.as_ref().map(|(hs, prf)| get_assertion::ExtensionInputs { hmac_secret: if *hs { hi.clone() } else { None }, prf: prf.as_ref().map(prfi_real) }),
             options: make_credential::Options { rk: self.rk, up: self.up, uv: self.uv },
             pin_auth: if self.pin { Some(vec![1u8; 16].into()) } else { None }, pin_protocol: None }
@@ -314,15 +316,23 @@ pub fn run_case_tw(ctx: &mut Ctx, prop: &str, w: &World, steps: &[Step], twin: &
         Kind::MapArcRwLock => run_generic(ctx, prop, w, Arc::new(tokio::sync::RwLock::new(MemoryStore::new())), steps, &tw),
         Kind::SlotArcMutex => run_generic(ctx, prop, w, Arc::new(tokio::sync::Mutex::new(None::<Passkey>)), steps, &tw),
         Kind::SlotRwLock => run_generic(ctx, prop, w, tokio::sync::RwLock::new(None::<Passkey>), steps, &tw),
+        Kind::MapMutex => run_generic(ctx, prop, w, tokio::sync::Mutex::new(MemoryStore::new()), steps, &tw),
+        Kind::MapRwLock => run_generic(ctx, prop, w, tokio::sync::RwLock::new(MemoryStore::new()), steps, &tw),
+        Kind::SlotArcRwLock => run_generic(ctx, prop, w, Arc::new(tokio::sync::RwLock::new(None::<Passkey>)), steps, &tw),
+        Kind::SlotMutex => run_generic(ctx, prop, w, tokio::sync::Mutex::new(None::<Passkey>), steps, &tw),
+        Kind::RefArcMutex => run_generic(ctx, prop, w, Arc::new(tokio::sync::Mutex::new(RefStore::new(d_full))), steps, &tw),
+        Kind::RefArcRwLock => run_generic(ctx, prop, w, Arc::new(tokio::sync::RwLock::new(RefStore::new(d_full))), steps, &tw),
+        Kind::RefMutex => run_generic(ctx, prop, w, tokio::sync::Mutex::new(RefStore::new(d_full)), steps, &tw),
+        Kind::RefRwLock => run_generic(ctx, prop, w, tokio::sync::RwLock::new(RefStore::new(d_full)), steps, &tw),
     }
 }
 
 // ---------------------------------------------------------------- helpers for generators
 
 pub fn simple_make(ctx: &mut Ctx, rp: &str) -> MakeOp {
-    MakeOp { cdh: ctx.rng.bytes(32), rp: rp.to_string(), user: ctx.rng.bytes_in(1, 16), algs: vec![-7], exclude: None, ext: None, rk: false, up: true, uv: true, pin: false }
+    MakeOp { cdh: ctx.rng.bytes(32), rp: rp.to_string(), user: ctx.rng.bytes_in(1, 16), algs: vec![-7], exclude: None, unk: vec![], ext: None, rk: false, up: true, uv: true, pin: false }
 }
 pub fn simple_get(ctx: &mut Ctx, rp: &str) -> GetOp {
-    GetOp { rp: rp.to_string(), cdh: ctx.rng.bytes(32), allow: None, ext: None, rk: false, up: true, uv: true, pin: false }
+    GetOp { rp: rp.to_string(), cdh: ctx.rng.bytes(32), allow: None, unk: vec![], ext: None, rk: false, up: true, uv: true, pin: false }
 }
 pub fn step(op: Op) -> Step { Step { op, uv: UvState::ok(), faults: vec![], cancel_after: None } }
